@@ -15,12 +15,15 @@ import regex
 import functools
 from . import Token
 from .parenthesis import Parenthesis
+from ..errors import TokenError
 
 
 class Function(Token):
     _re = regex.compile(r'^\s*@?(?P<name>[A-Z_][\w\.]*)\(\s*', regex.IGNORECASE)
 
     def ast(self, tokens, stack, builder, check_n=lambda *args: True):
+        if tokens and tokens[-1].name == '%':
+            raise TokenError
         super(Function, self).ast(tokens, stack, builder)
         stack.append(self)
         t = Parenthesis('(')
